@@ -507,12 +507,17 @@ func (e *Env) RClone() {
 		written := map[string]schema.Event{}
 		freshMap := map[string]bool{}
 		allocSeen := false
+		var valueCopy *schema.Event
 		for i, ev := range cc.Events {
 			pos := e.Prog.Pos(ev.Pos)
 			switch ev.Kind {
 			case schema.KAlloc:
 				e.Run.Check("R-CLONE", fmt.Sprintf("%s: fresh allocation of the same type", tn), pos, ev.Field == tn && i == 0 && ev.Guard == "", "Clone case must start with out := &"+tn+"{}; found "+ev.String())
 				allocSeen = true
+				if ev.Name == "value-copy" {
+					cp := ev
+					valueCopy = &cp
+				}
 			case schema.KRet:
 				e.Run.Check("R-CLONE", fmt.Sprintf("%s: returns the fresh node", tn), pos, ev.Expr == "out" && ev.Guard == "" && i == len(cc.Events)-1, "the only return must be `return out` at the end of the case; found return "+ev.Expr)
 			case schema.KOpaque:
@@ -543,6 +548,14 @@ func (e *Env) RClone() {
 			facts++
 			ev, ok := written[p]
 			key := fmt.Sprintf("%s.%s copied", tn, p)
+			if !ok && valueCopy != nil {
+				// out := *n copied the field as it is: that is the whole copy of a plain value, and
+				// shared storage for anything that refers to other memory
+				plain := f.Kind == FValue || (f.Kind == FDecs && (lastComp(p) == "Before" || lastComp(p) == "After"))
+				e.Run.Check("R-CLONE", key, e.Prog.Pos(valueCopy.Pos), plain,
+					fmt.Sprintf("out := *n copies out.%s (%s) by reference and the case never replaces it with a deep copy: the clone shares that storage with the original (an edit of one shows up in the other)", p, f.Kind))
+				continue
+			}
 			if !ok {
 				e.Run.Violation("R-CLONE", key, e.casePos(cc), fmt.Sprintf("Clone case %s never writes out.%s (%s): a clone prints differently from / lacks data of the original", tn, p, f.Kind))
 				continue
